@@ -1,23 +1,14 @@
 /-
 C02 — Parse is total: the grammar part.
 -/
-import JPV.Lemmas.Peg
-import JPV.Gen.Grammar
+import JPV.Lemmas.ParseModel
 namespace JPV.Props
 open JPV.Peg
 
-/-- the regenerated `expression` rule is what the proof below was written for -/
-theorem expression_body :
-    ruleBody Gen.grammar "expression" =
-      .alt (.seq (.rule "jsonpath") (.seq (.rule "END") (.act 0)))
-           (.seq (.opt (.rule "jsonpath")) (.seq (.cap (.star .any)) (.seq (.rule "END") (.act 1)))) := rfl
-
-theorem end_body : ruleBody Gen.grammar "END" = .not .any := rfl
-
 /-- the second alternative of `expression` cannot fail, wherever it is started -/
 theorem expression_alt2_ne_fail (inp : Array Char) (f pos : Nat) :
-    run Gen.grammar f
-      (.seq (.opt (.rule "jsonpath")) (.seq (.cap (.star .any)) (.seq (.rule "END") (.act 1)))) inp pos ≠ .fail := by
+    run Gen.grammar f exprAlt2 inp pos ≠ .fail := by
+  unfold exprAlt2
   apply seq_ne_fail
   · intro f; exact opt_ne_fail f _ _
   · intro _ f' p _ _
@@ -53,7 +44,7 @@ theorem C02_expression_never_fails (input : Array Char) (fuel : Nat) :
   | zero => rw [run_zero]; simp
   | succ f =>
     rw [run_alt]
-    cases h : run Gen.grammar f (.seq (.rule "jsonpath") (.seq (.rule "END") (.act 0))) input 0 with
+    cases h : run Gen.grammar f exprAlt1 input 0 with
     | fail => exact expression_alt2_ne_fail input f 0
     | outOfFuel => simp
     | ok p t => simp
@@ -64,5 +55,41 @@ theorem C02_fuel_mono (g : Grammar) (e : PE) (input : Array Char) (pos : Nat) {f
     (hle : fuel ≤ fuel') (h : run g fuel e input pos ≠ .outOfFuel) :
     run g fuel' e input pos = run g fuel e input pos :=
   run_mono e pos hle h
+
+/-- **C02_outcome_shape.** What `parseModel` answers is determined by the recogniser's token list and
+    the action machine: unless it answers `unmodelled`, the recogniser succeeded with some token
+    list, and the answer is the tree `exec` built or the translation of the `Stop` it raised. -/
+theorem C02_outcome_shape (env : Env) (ext : Ext) (cfg : Cfg) (s : String) :
+    parseModel env ext cfg s = .unmodelled ∨
+    ∃ p toks, recognise s.toList.toArray = .ok p toks ∧
+      ((∃ ch, exec ⟨env, ext, cfg.accessor, s.toList.toArray⟩ toks = .ok ch ∧
+          parseModel env ext cfg s = .ok ch) ∨
+       (∃ st, exec ⟨env, ext, cfg.accessor, s.toList.toArray⟩ toks = .error st ∧
+          parseModel env ext cfg s = outcomeOfStop s.toList.toArray st)) := by
+  unfold parseModel parseInput
+  split
+  · exact .inl rfl
+  · split
+    · exact .inl rfl
+    · exact .inl rfl
+    · rename_i p toks hrec
+      refine .inr ⟨p, toks, hrec, ?_⟩
+      split
+      · rename_i ch hex; exact .inl ⟨ch, hex, rfl⟩
+      · rename_i st hex; exact .inr ⟨st, hex, rfl⟩
+
+/-- `parseModel` answers `panic` only if `Actions.exec` raised that panic on the recogniser's tokens -/
+theorem C02_panic_only_from_exec (env : Env) (ext : Ext) (cfg : Cfg) (s : String) (p : Panic)
+    (h : parseModel env ext cfg s = .panic p) :
+    ∃ pos toks, recognise s.toList.toArray = .ok pos toks ∧
+      exec ⟨env, ext, cfg.accessor, s.toList.toArray⟩ toks = .error (.panic p) := by
+  rcases C02_outcome_shape env ext cfg s with hu | ⟨pos, toks, hrec, hok | herr⟩
+  · rw [hu] at h; cases h
+  · obtain ⟨ch, _, hpm⟩ := hok
+    rw [hpm] at h; cases h
+  · obtain ⟨st, hex, hpm⟩ := herr
+    rw [hpm] at h
+    cases st <;> simp only [outcomeOfStop] at h <;> try (cases h)
+    exact ⟨pos, toks, hrec, hex⟩
 
 end JPV.Props
